@@ -16,6 +16,7 @@ use yui_homology::{ChainComplexTrait, GenericChainComplex, GridTrait, SummandTra
 use yui_matrix::sparse::pivot::{PivotCondition, PivotType};
 use yui_matrix::sparse::{MatTrait, SpMat, SpVec};
 use yv::*;
+use yv::rings::Txt;
 
 // ---------------------------------------------------------------------------------------------------------
 // scalars
